@@ -219,6 +219,12 @@ func runC18(res *Result, tier string, seed int64, replay string) {
 		pair{"end-tag-space", wrap(`<mj-text>A</mj-text ><mj-button href="u">B</mj-button><mj-text>C</mj-text>`), wrap(`<mj-text>A</mj-text><mj-button href="u">B</mj-button><mj-text>C</mj-text>`)},
 		pair{"end-tag-newline", wrap("<mj-text>A</mj-text\n   ><mj-divider/><mj-text>C</mj-text\t>"), wrap(`<mj-text>A</mj-text><mj-divider/><mj-text>C</mj-text>`)},
 		pair{"end-tag-space-other", wrap(`<mj-button href="u">B</mj-button ><mj-text>C</mj-text>`), wrap(`<mj-button href="u">B</mj-button><mj-text>C</mj-text>`)},
+		pair{"self-closing-raw", "<mjml><mj-body><mj-raw/><mj-section><mj-column><mj-raw /><mj-text>T</mj-text><mj-raw position=\"x\"/></mj-column></mj-section><mj-raw/></mj-body></mjml>",
+			"<mjml><mj-body><mj-raw></mj-raw><mj-section><mj-column><mj-raw></mj-raw><mj-text>T</mj-text><mj-raw position=\"x\"></mj-raw></mj-column></mj-section><mj-raw></mj-raw></mj-body></mjml>"},
+		pair{"self-closing-ending-tags", wrap(`<mj-text/><mj-button href="u"/><mj-table/><mj-text>after</mj-text><mj-navbar><mj-navbar-link href="/a"/></mj-navbar><mj-social><mj-social-element name="facebook" href="h"/></mj-social>`),
+			wrap(`<mj-text></mj-text><mj-button href="u"></mj-button><mj-table></mj-table><mj-text>after</mj-text><mj-navbar><mj-navbar-link href="/a"></mj-navbar-link></mj-navbar><mj-social><mj-social-element name="facebook" href="h"></mj-social-element></mj-social>`)},
+		pair{"self-closing-head", "<mjml><mj-head><mj-title/><mj-preview/><mj-style/><mj-attributes/></mj-head><mj-body><mj-section><mj-column><mj-text>T</mj-text></mj-column></mj-section></mj-body></mjml>",
+			"<mjml><mj-head><mj-title></mj-title><mj-preview></mj-preview><mj-style></mj-style><mj-attributes></mj-attributes></mj-head><mj-body><mj-section><mj-column><mj-text>T</mj-text></mj-column></mj-section></mj-body></mjml>"},
 		pair{"quot-in-attr", wrap(`<mj-image src="x.png" alt="say &quot;hi&quot;"/>`), wrap(`<mj-image src="x.png" alt='say "hi"'/>`)},
 		pair{"lt-in-title", "<mjml><mj-head><mj-title>a &lt; b</mj-title></mj-head><mj-body><mj-section><mj-column><mj-text>t</mj-text></mj-column></mj-section></mj-body></mjml>",
 			"<mjml><mj-head><mj-title><![CDATA[a < b]]></mj-title></mj-head><mj-body><mj-section><mj-column><mj-text>t</mj-text></mj-column></mj-section></mj-body></mjml>"},
